@@ -250,7 +250,7 @@ func compare(p *prepared, text string, res *emit.LexResult) error {
 // longUnit: tokens whose lexemes can be made long by repeating a unit.
 var longUnit = map[string]string{"ID": "ab9_", "NUM": "90", "STR": "xy+", "CYR": "яд", "CJK": "中文", "EACUTE": "é"}
 
-var nearMisses = []string{"1.", "@", "\"abc", "~", "1.x", "é", "\x01", "-", "=>>", "#A", "ж", "\u07ff", "\U0010FFFF"}
+var nearMisses = []string{"1.", "@", "\"abc", "~", "1.x", "é", "\x01", "-", "=>>", "#A", "ж", "\u07ff", "\U0010FFFF", "\f", "\v", "\x1c", "\x1f", "\u0085", "\u00a0", "\u2028", "\u3000"}
 
 func genInput(t *rapid.T, p *prepared) string {
 	var b strings.Builder
@@ -395,16 +395,21 @@ func runBatch(ps []*prepared, cases []caseT) (failed *caseT, err error) {
 		// a crash or a hang of the driver: find the case by running them one by one
 		for i := range cases {
 			_, e1 := emit.Run(bin, jobs[i:i+1])
-			if e1 == emit.ErrTimeout {
-				// a single small input that normally takes milliseconds: try once more before calling it non-termination
-				_, e1 = emit.Run(bin, jobs[i:i+1])
+			if e1 == emit.ErrSpinning {
+				return &cases[i], fmt.Errorf("the emitted lexer does not reach the end of this input: it used %v of processor time without a result (such an input takes milliseconds)\ninput of %d bytes: %q\nspecification:\n%s", emit.SpinCPU, len(cases[i].text), head(cases[i].text), cases[i].p.src)
 			}
 			if e1 == emit.ErrTimeout {
-				return &cases[i], fmt.Errorf("the emitted lexer does not reach the end of this input (no result within 2 x 20 s; such an input takes milliseconds)\ninput of %d bytes: %q\nspecification:\n%s", len(cases[i].text), head(cases[i].text), cases[i].p.src)
+				rec.Count("inconclusive_driver_starved", 1) // a busy machine, not a verdict
+				continue
 			}
 			if e1 != nil {
 				return &cases[i], fmt.Errorf("the emitted lexer crashes: %v\ninput: %q\nspecification:\n%s", e1, head(cases[i].text), cases[i].p.src)
 			}
+		}
+		if err == emit.ErrTimeout || err == emit.ErrSpinning {
+			// the batch as a whole was starved (or its sum of work hit the limit) but no single case shows it: not a verdict
+			rec.Count("inconclusive_batch_starved", 1)
+			return nil, nil
 		}
 		return nil, err
 	}
